@@ -46,12 +46,26 @@ Lemma m_bound_ne b : msg_nonempty (m_bound b) = true. Proof. destruct b; reflexi
 Lemma m_length_ne b : msg_nonempty (m_length b) = true. Proof. destruct b; reflexivity. Qed.
 Lemma m_type_ne b : msg_nonempty (m_type b) = true. Proof. destruct b; reflexivity. Qed.
 
-Lemma required_outcome_msg vv inst le :
-  required_outcome vv inst = Lib le -> msg_nonempty (err_msg le) = true.
+Lemma required_outcome_msg vv inst path le :
+  required_outcome vv inst path = Lib le -> msg_nonempty (err_msg le) = true.
 Proof.
   unfold required_outcome. intros H.
-  destruct inst; try (destruct (subscript0 vv); inversion H; reflexivity).
-  destruct (iter_json vv); try discriminate. destruct (forallb hashable l); inversion H. reflexivity.
+  assert (G : match inst with
+              | JObj kvs =>
+                  match iter_json vv with
+                  | None => Raw RTypeError
+                  | Some ks =>
+                      if forallb hashable ks
+                      then Lib (EMissingKey (hd_error (filter (fun k => negb (key_in k kvs)) ks)) m_missing)
+                      else Raw RTypeError
+                  end
+              | _ => match subscript0 vv with inl x => Raw x | inr k => Lib (EMissingKey (Some k) m_missing) end
+              end = Lib le -> msg_nonempty (err_msg le) = true).
+  { clear H. intros H.
+    destruct inst; try (destruct (subscript0 vv); inversion H; reflexivity).
+    destruct (iter_json vv); try discriminate. destruct (forallb hashable l); inversion H. reflexivity. }
+  destruct vv; try (apply G; exact H).
+  inversion H. reflexivity.
 Qed.
 
 (* whenever process_error produces a library error its message is non-empty (no assumption on the record) *)
@@ -91,16 +105,18 @@ Proof.
     + destruct (is_false vv); eexists; reflexivity.
     + destruct st; try discriminate. eexists; reflexivity.
     + destruct i; try discriminate. destruct vv; try discriminate.
-      apply andb_true_iff in H as [H1 H2]. unfold required_outcome. cbn [iter_json].
-      rewrite (is_str_hashable _ H1). eexists; reflexivity.
+      * unfold required_outcome. eexists; reflexivity.
+      * apply andb_true_iff in H as [H1 H2]. unfold required_outcome. cbn [iter_json].
+        rewrite (is_str_hashable _ H1). eexists; reflexivity.
     + destruct vv; try discriminate. eexists; reflexivity.
   - intros k vv i st sp pt pts p m c cs IH H. cbn in H. cbn [process_error].
     destruct k; try (eexists; reflexivity).
     + destruct (is_false vv); eexists; reflexivity.
     + destruct st; try discriminate. eexists; reflexivity.
     + destruct i; try discriminate. destruct vv; try discriminate.
-      apply andb_true_iff in H as [H1 H2]. unfold required_outcome. cbn [iter_json].
-      rewrite (is_str_hashable _ H1). eexists; reflexivity.
+      * unfold required_outcome. eexists; reflexivity.
+      * apply andb_true_iff in H as [H1 H2]. unfold required_outcome. cbn [iter_json].
+        rewrite (is_str_hashable _ H1). eexists; reflexivity.
     + destruct vv; try discriminate. eexists; reflexivity.
     + destruct vv; try discriminate. apply andb_true_iff in H as [H1 _]. apply IH. exact H1.
     + destruct vv; try discriminate. apply andb_true_iff in H as [H1 _]. apply IH. exact H1.
@@ -114,22 +130,57 @@ Proof.
 Qed.
 
 (* ------------------------------------------------------------------------------------------------ required *)
+(* a `required` record of either shape - the list of required keys of draft 4 and later, or the boolean of draft 3 whose
+   key ends the path - is translated to MissingJsonKeyError exposing a key that is required and absent from the instance *)
 Theorem required_exposes_key pm e :
   wf_verr pm e = true -> v_kind e = VRequired ->
-  exists k kvs ks m,
-    v_inst e = JObj kvs /\ v_value e = JArr ks /\
+  exists k kvs m,
+    v_inst e = JObj kvs /\
     process_error e = Lib (EMissingKey (Some (JStr k)) m) /\
-    In (JStr k) ks /\ ~ In k (keys kvs).
+    ~ In k (keys kvs) /\
+    ((exists ks, v_value e = JArr ks /\ In (JStr k) ks) \/
+     (v_value e = JBool true /\ last_part (v_path e) = Some (PKey k) /\ In k (v_sprops e))).
 Proof.
-  destruct e as [k vv i st sp pt pts p m ctx]. cbn [v_kind v_inst v_value]. intros H Hk. subst k.
+  destruct e as [k vv i st sp pt pts p m ctx]. cbn [v_kind v_inst v_value v_path v_sprops]. intros H Hk. subst k.
   cbn in H. destruct i; try discriminate. destruct vv; try discriminate.
-  apply andb_true_iff in H as [H1 H2].
-  destruct (existsb_hd_filter _ _ H2) as [x [Hh [Hi Hx]]].
-  assert (Hs : is_str x = true) by (rewrite forallb_forall in H1; auto).
-  destruct x; try discriminate.
-  exists s, kvs, l, m_missing. repeat split; auto.
-  - cbn [process_error]. unfold required_outcome. cbn [iter_json]. rewrite (is_str_hashable _ H1). rewrite Hh. reflexivity.
-  - intros Hin. apply mem_str_In in Hin. cbn in Hx. rewrite Hin in Hx. discriminate.
+  - (* draft 3 *)
+    destruct b; try discriminate.
+    destruct (last_part p) as [[n|k]|] eqn:Hl; try discriminate.
+    apply andb_true_iff in H as [H1 H2]. apply negb_true_iff in H1.
+    exists k, kvs, m_missing. repeat split.
+    + cbn [process_error]. unfold required_outcome. rewrite Hl. reflexivity.
+    + intros Hin. apply mem_str_In in Hin. rewrite Hin in H1. discriminate.
+    + right. repeat split; auto. apply mem_str_In. exact H2.
+  - (* draft 4 and later *)
+    apply andb_true_iff in H as [H1 H2].
+    destruct (existsb_hd_filter _ _ H2) as [x [Hh [Hi Hx]]].
+    assert (Hs : is_str x = true) by (rewrite forallb_forall in H1; auto).
+    destruct x; try discriminate.
+    exists s, kvs, m_missing. repeat split.
+    + cbn [process_error]. unfold required_outcome. cbn [iter_json]. rewrite (is_str_hashable _ H1). rewrite Hh. reflexivity.
+    + intros Hin. apply mem_str_In in Hin. cbn in Hx. rewrite Hin in Hx. discriminate.
+    + left. exists l. split; auto.
+Qed.
+
+(* the draft-3 shape alone, for every such record: the exposed key is the last element of the error's path *)
+Theorem required_draft3_exposes_path_key pm e b :
+  wf_verr pm e = true -> v_kind e = VRequired -> v_value e = JBool b ->
+  exists k kvs m front,
+    b = true /\ v_inst e = JObj kvs /\ v_path e = front ++ [PKey k] /\
+    process_error e = Lib (EMissingKey (Some (JStr k)) m) /\
+    ~ In k (keys kvs) /\ In k (v_sprops e).
+Proof.
+  intros H Hk Hv. destruct (required_exposes_key pm e H Hk) as [k [kvs [m [Hi [Hp [Hn [[ks [E _]]|[E [Hl Hs]]]]]]]]].
+  - rewrite Hv in E. discriminate.
+  - rewrite Hv in E. inversion E. subst b.
+    assert (Hf : forall p q, last_part p = Some q -> exists front, p = front ++ [q]).
+    { induction p as [|a p IH]; intros q Hq; [discriminate|].
+      destruct p as [|a' p'].
+      - cbn in Hq. inversion Hq. subst. exists []. reflexivity.
+      - change (last_part (a :: a' :: p')) with (last_part (a' :: p')) in Hq.
+        destruct (IH q Hq) as [front Ef]. exists (a :: front). rewrite Ef. reflexivity. }
+    destruct (Hf _ _ Hl) as [front Ef].
+    exists k, kvs, m, front. repeat split; auto.
 Qed.
 
 (* ------------------------------------------------------------------------------------------------ type *)
@@ -542,13 +593,15 @@ Proof.
   - intros e H. inversion H. reflexivity.
 Qed.
 
-(* ------------------------------------------------------------------------------------------------ refutation:
-   without the draft-4+ contract on `required` the translation escapes with TypeError.  jsonschema's draft-3 `required`
-   raises exactly this record for validate({}, {"$schema": draft-03, "properties": {"a": {"required": true}}}). *)
+(* ------------------------------------------------------------------------------------------------ draft 3:
+   the record jsonschema raises for validate({}, {"$schema": draft-03, "properties": {"a": {"required": true}}}) - a
+   boolean validator value, the missing key at the end of the path - is well-formed and is translated to the library's
+   MissingJsonKeyError exposing "a" (before the repair of process_error the boolean was iterated: TypeError). *)
 Definition draft3_required_error : verr :=
-  VErr VRequired (JBool true) (JObj []) None [codes "a"%string] false [] [] (codes "'a' is a required property"%string) [].
+  VErr VRequired (JBool true) (JObj []) None [codes "a"%string] false [] [PKey (codes "a"%string)]
+       (codes "'a' is a required property"%string) [].
 
-Theorem process_error_total_refuted :
-  exists e, v_kind e = VRequired /\ v_value e = JBool true /\ process_error e = Raw RTypeError /\
-            forall pm, wf_verr pm e = false.
-Proof. exists draft3_required_error. vm_compute. repeat split; reflexivity. Qed.
+Theorem draft3_required_translated :
+  (forall pm, wf_verr pm draft3_required_error = true) /\
+  process_error draft3_required_error = Lib (EMissingKey (Some (JStr (codes "a"%string))) m_missing).
+Proof. split; [intros pm|]; vm_compute; reflexivity. Qed.
